@@ -473,3 +473,4 @@ def dialAddrs (s : St) (firstErr : Option DErr) : List AddrScript → St × DRes
 def dialConnection (as : List AddrScript) : St × DRes := dialAddrs {} none as
 
 end Netpoll.Dial
+
